@@ -39,6 +39,7 @@ SLICES = [
 
 def register(reg):
     register_nddata(reg)
+    register_area_overlap(reg)
     reg.record('ApertureMask', {'data': ('arr', 2, 'real', 'nonempty'), 'bbox': 'BoundingBox',
                                 '_mask': ('arr', 2, 'bool')})
     register_mask_images(reg)
@@ -284,3 +285,43 @@ def register_nddata(reg):
                 + ([('error = data.uncertainty.array', 'error = None')]
                    if uspec == 'StdDevUncertainty' else []),
             ))
+
+
+def register_area_overlap(reg):
+    """PixelAperture.area_overlap (used by ApertureStats and the profiles): the overlap area of one
+    position is the sum over the common pixels of the aperture weight, a masked pixel counting
+    zero -- whatever its weight was."""
+    A_ = 'photutils/aperture/core.py::PixelAperture'
+    pre = ['0 <= slc_large[0].start', 'slc_large[0].start < slc_large[0].stop',
+           '0 <= slc_large[1].start', 'slc_large[1].start < slc_large[1].stop',
+           '0 <= slc_small[0].start', '0 <= slc_small[1].start',
+           'slc_small[0].stop - slc_small[0].start == slc_large[0].stop - slc_large[0].start',
+           'slc_small[1].stop - slc_small[1].start == slc_large[1].stop - slc_large[1].start',
+           'slc_small[0].stop <= apermask.data.shape[0]',
+           'slc_small[1].stop <= apermask.data.shape[1]']
+    box = ('(0, slc_large[0].stop - slc_large[0].start), '
+           '(0, slc_large[1].stop - slc_large[1].start)')
+    w0 = 'old_apermask.data[j + slc_small[0].start, i + slc_small[1].start]'
+    for tag, mspec in (('mask', ('arr', 2, 'bool')), ('nomask', ('const', None))):
+        mreq = ['slc_large[0].stop <= mask.shape[0]', 'slc_large[1].stop <= mask.shape[1]'] \
+            if tag == 'mask' else []
+        term = (f'ite(mask[j + slc_large[0].start, i + slc_large[1].start], 0, {w0})'
+                if tag == 'mask' else w0)
+        reg.add(Contract(
+            target=f'{A_}.area_overlap', props=['C02', 'C16', 'C19'], kind='method',
+            tag='area-' + tag, block=('aper_weights', 'area'),
+            params={'apermask': ('record', 'ApertureMaskData', {'data': ('arr', 2, 'real')}),
+                    'slc_large': 'slice2', 'slc_small': 'slice2', 'mask': mspec},
+            requires=pre + mreq,
+            ensures=[('summed-over-the-common-pixels',
+                      'shape_of(area) == (slc_large[0].stop - slc_large[0].start, '
+                      'slc_large[1].stop - slc_large[1].start) and '
+                      f'forall(lambda j, i: sel(area, j, i), {box})'),
+                     ('each-pixel-counts-its-weight-masked-pixels-zero',
+                      f'forall(lambda j, i: val(area, j, i) == {term}, {box})')],
+            mutants=[('apermask.data[slc_small]', 'apermask.data[slc_large]')]
+            + ([('aper_weights[mask[slc_large]] = 0.0', 'aper_weights[mask[slc_small]] = 0.0'),
+                ('aper_weights[mask[slc_large]] = 0.0', 'aper_weights[~mask[slc_large]] = 0.0'),
+                ('aper_weights[mask[slc_large]] = 0.0', 'aper_weights[mask[slc_large]] = 1.0')]
+               if tag == 'mask' else []),
+        ))
